@@ -56,6 +56,9 @@ CHECKS = {
  "C19": dict(cat="exploration", technique="stand-alone gcc -std=c17 -Wall builds of generated sources; exhaustive rule-id injectivity contract over all rule pairs per (cell, entity type) with compiled witnesses; audit-hook rejection monitor",
    text="Every accepted case of the corpora is generated and compiled stand-alone; all pairs of rules ffcx creates (default/Gauss-Jacobi/GLL x degree 0..30, vertex) per cell and entity type are tested for distinct ids (names embedding the id would otherwise collide) and colliding / sampled pairs are compiled; 16 unsupported constructs must raise before any compiler process is launched or else agree with the oracle.",
    note="Exhaustive over rule pairs only. Two defects found and fixed (rule id collisions; jn/yn undeclared under -std=c17).", ref="3/C19"),
+ "C20": dict(cat="exploration", technique="`python -m ffcx` executed in throw-away directories; stand-alone gcc build + nm of the written files; alias monitor; kernels reached through the alias symbols compared bitwise with the JIT path's source (same flags) and with the oracle; option-source lattice",
+   text="Demo and generated UFL files (named forms, expressions, elements, file names needing sanitising, -i/-o/-n/-d styles, scalar types, numba) are compiled by the command-line entry point; the source must compile alone, define everything the header declares, expose exactly the named aliases, and the kernels behind the aliases must equal the JIT kernels bitwise and the oracle; each option is run under all 8 subsets of {CLI, $PWD json, $XDG json} and the effective value must follow the documented priority.",
+   note="`python -m ffcx` stands for the console script. One defect found and fixed (store_true defaults).", ref="3/C20"),
 }
 NA_REASON = "check not built yet in this round (runtime monitoring applies; see DESIGN.md section 3)"
 
